@@ -23,6 +23,12 @@ def died(err):
 def run(ctx):
     ctx.assumptions += ["replayed expectations are exact rationals computed by TLC from spec/Helpers.tla; doubles are compared within a few ulps of the data scale",
                         "integer-valued test data are exact in IEEE double"]
+    # unbounded, on the model side: TLAPS proves the index formula of Workload_Distribution (WDCore!WDIndex, which Helpers!WD_A uses)
+    # correct for EVERY (workers, tasks); TLC below checks the same formula against WD_S for all workers <= 128, tasks <= 1024
+    ok, nobl, out = vf.tlaps("WD_Proof", ctx.work)
+    if not ok:
+        raise vf.EngineError("TLAPS did not prove spec/proofs/WD_Proof.tla:\n" + out[-2000:])
+    ctx.notes.append("TLAPS: all %d obligations of proofs/WD_Proof.tla proved (Workload_Distribution's index formula for every workers >= 1 and tasks >= 0)" % nobl)
     exe = ctx.harness("c19")
     vec = os.path.join(ctx.work, "vectors.ndjson")
     seen = set()
